@@ -694,6 +694,12 @@ def gen_tied(rng, shared_bias=0.0):
             outs.append(y)
             kinds.append("ELEMENTWISE_CONST")
             info["tags"].add("tied_elementwise")
+        if rng.random() < 0.2:
+            # the shared buffer also backs a constant that NO operator reads: exported as a graph output, or just left in the table
+            we = g.tensor(gr.name("w_export"), [o, f], buffer=shared_buf)
+            if rng.random() < 0.6:
+                outs.append(we)
+            info["tags"].add("tied_unread_constant")
         g.io(gr.inputs, outs, sig=f"sig{si}" if nsg > 1 else "serving_default")
         info["subgraphs"].append({"sig": None, "int_inputs": [], "ops": kinds})
     return g.bytes(), info
